@@ -44,6 +44,11 @@ def configs(tier):
         s["soil"]["dz"] = list(dzl)
         s["crop"]["kw"] = dict(s["crop"].get("kw") or {}, Zmax=zmax, Zmin=0.3)
         C[nm] = s
+    # water-logged heavy clay (field capacity above the aeration threshold): per-compartment aeration-stress counters build up during a run
+    for nm, ck, iwc, word in (("waterlogged_clay", "wheat.15", "FC", "wet"), ("waterlogged_clay_sat_maize", "maize.2", "SAT", "showers")):
+        C[nm] = A.to_spec(A._b(crop=ck, soil="Clay", iwc=iwc, word=word, win="w1"))
+    C["waterlogged_clay_full_length_wheat"] = A.catalogue_spec("Wheat", word="wet", soil="Clay", iwc="FC", planting="10/01", start="2001/10/01", end="2002/09/20")
+    C["waterlogged_clay_full_length_maize_table"] = A.catalogue_spec("Maize", word="showers", soil="Clay", iwc="FC", gw="0.8", dz="deep30")
     # user lists NOT in chronological order (observations / schedule rows): an initialisation that normalises them may not write half of
     # the result back onto the user's object
     for nm, g in (("unsorted_table_v", {"method": "Variable", "series": [[30, 0.5], [0, 2.4], [9999, 0.5]]}),
